@@ -169,13 +169,22 @@ def gen_case(seed, profile_weights, tier, tol_lo=None):
         case['expect']['hazard'] = hz
     elif profile == 'chaos':
         block, meta = gen_block(rng, 'contractive', T=T, n=rng.randint(1, 5), tol_text=tol_text)
+    elif profile == 'econ_text':
+        eb = econ_block(seed)
+        if eb is None:
+            block, meta = gen_block(rng, 'contractive', T=T, tol_text=tol_text)
+        else:
+            block, fam = eb
+            meta = {'q': None, 'n': len(block['eqs']), 'nonlinear': True}
+            case['expect']['econ_family'] = fam
+            knobs['cap'] = 2000
     elif profile == 'cap_small':
         block, meta = gen_block(rng, rng.choice(['contractive', 'mixed']), T=T, tol_text=tol_text)
         knobs['cap'] = S['faults'].randint(0, 5)
     else:
         raise core.HarnessError('unknown profile ' + profile)
     # host tick() on a self-referencing variable so sweeps per period can be counted
-    if S['knobs'].random() < 0.7 or profile in ('cap_small',):
+    if (S['knobs'].random() < 0.7 or profile in ('cap_small',)) and profile != 'econ_text':
         tv = ensure_cycle_var(block, rng)
         wrap_function(block, rng, 'tick', target=tv)
         knobs['tick_var'] = tv
@@ -211,6 +220,33 @@ def gen_case(seed, profile_weights, tier, tol_lo=None):
                                  n_faults=S['faults'].choice([1, 1, 2]))
         case['faults'] = faults
     return case
+
+
+def econ_block(seed, tight=False):
+    """A block parsed (with the harness's own parser) from the final equation text that the real library emits for a
+    seeded ECON program: realistic systems of 30-120 equations with alias chains, lags, exogenous lists."""
+    from . import econ, econgen
+    ops, info = econgen.gen_program(seed, tight=tight, T=None)
+    ops = [o for o in ops if o['op'] != 'main' and not (o['op'] == 'SetAttr' and o.get('solver'))]
+    sess = econ.run_program(ops)
+    m = sess.H[info['model']]
+    import contextlib
+    import io
+    try:
+        with contextlib.redirect_stdout(io.StringIO()):
+            m._GenerateFullSectorCodes()
+            m._GenerateEquations()
+            m._FixAliases()
+            m._GenerateRegisteredCashFlows()
+            m._ProcessExogenous()
+            text = m._CreateFinalEquations()
+    except Exception:   # noqa
+        return None
+    p = econ.parse_final(text)
+    T = min(p['maxtime'] or 3, 4)
+    return {'eqs': [[l, r] for l, r in p['eqs']], 'lags': [[l, s_, 'k'] for l, s_ in p['lags']],
+            'ics': [[v, t_] for v, t_ in p['ics']], 'exo': [[l, r] for l, r in p['exo']],
+            'maxtime': T, 'err_tol': p['err_tol']}, info['family']
 
 
 def list_paths(case):
